@@ -47,6 +47,8 @@ CERT_HEADER = ("From Coq Require Import Reals.\nFrom Interval Require Import Tac
 # ---------------------------------------------------------------------------
 def fR(x):
     """a finite float as an exact Coq real expression (integer, or odd mantissa / 2^k)"""
+    if not math.isfinite(float(x)):
+        return "(non_finite_%s)" % ("nan" if math.isnan(float(x)) else "inf")   # no such constant: the certificate cannot compile
     fr = Fraction(float(x))
     n, d = fr.numerator, fr.denominator
     if d == 1:
@@ -67,6 +69,9 @@ class Cert:
         self.nontrivial = nontrivial
         self.ok = None
         self.log = ""
+        if "non_finite" in stmt:
+            self.ok = False
+            self.log = "observed value or tolerance is not finite"
 
 
 def spline_cert(e, n, fe, fn, md, obs, kind):
@@ -154,6 +159,9 @@ def compile_certs(certs, tag, per_cert_timeout=60):
     for fn in os.listdir(d):
         if fn.startswith("cert_%s_" % tag):
             os.unlink(os.path.join(d, fn))
+    certs = [c for c in certs if c.ok is None]
+    if not certs:
+        return
     nb = max(1, min(core.NPROC, len(certs)))
     per = -(-len(certs) // nb)
     per = min(per, 40)
@@ -208,7 +216,7 @@ def cert_cases(certs, tag):
 # ---------------------------------------------------------------------------
 E_DOUBLE = math.e
 DISTANCES = [1e-12, 1e-9, 1e-6, 1e-3, 0.03125, 0.3, 0.5, 1 - 2.0 ** -53, 1.0, 1 + 2.0 ** -52, 1.5, E_DOUBLE, 3.0, 10.0,
-             1e3, 1e5, 1e6, 1e8]
+             150.0, 700.0, 1e3, 1e5, 1e6, 1e8]
 
 
 def _directions(rnd, r):
@@ -306,6 +314,10 @@ def checker_samples(vd, rnd, tier):
 # ---------------------------------------------------------------------------
 # vm_compute cases
 # ---------------------------------------------------------------------------
+def _fin(*arrays):
+    return all(bool(np.all(np.isfinite(np.asarray(a, dtype=float)))) for a in arrays)
+
+
 def cmat(A):
     return clist([clist([cD(x) for x in row]) for row in np.asarray(A, dtype=float)])
 
@@ -360,7 +372,7 @@ def predict_spline_case(vd, rnd, fitted, kind):
         y = sp.predict((qe, qn))
         J = sp.jacobian((qe, qn), sp.force_coords_)
     shape_ok = (y.shape == qe.shape) and J.shape == (qe.size, m)
-    term = "c03_predict %s %s %s %s" % (cmat(J), cvec(sp.force_), cvec(y), cbool(shape_ok))
+    term = ("c03_predict %s %s %s %s" % (cmat(J), cvec(sp.force_), cvec(y), cbool(shape_ok))) if _fin(J, sp.force_, y) else "c03_flag false"
     inp = {"gridder": "Spline", "mindist": md, "fitted": fitted, "force_east": fe.tolist(), "force_north": fn.tolist(),
            "force": sp.force_.tolist(), "query_east": qe.tolist(), "query_north": qn.tolist()}
     repro = ("import verde, numpy as np, warnings; warnings.simplefilter('ignore'); s = verde.Spline(mindist=%r); "
@@ -393,7 +405,7 @@ def predict_vector_case(vd, rnd, fitted, kind):
     ye, yn = vs.predict((qe, qn))
     J = vs.jacobian((qe, qn), vs.force_coords)
     shape_ok = (ye.shape == qe.shape) and (yn.shape == qe.shape) and J.shape == (2 * qe.size, 2 * m)
-    term = "c03_predict2 %s %s %s %s %s" % (cmat(J), cvec(vs.force_), cvec(ye), cvec(yn), cbool(shape_ok))
+    term = ("c03_predict2 %s %s %s %s %s" % (cmat(J), cvec(vs.force_), cvec(ye), cvec(yn), cbool(shape_ok))) if _fin(J, vs.force_, ye, yn) else "c03_flag false"
     inp = {"gridder": "VectorSpline2D", "mindist": md, "poisson": nu, "fitted": fitted, "force_east": fe.tolist(),
            "force_north": fn.tolist(), "force": vs.force_.tolist(), "query_east": qe.tolist(), "query_north": qn.tolist()}
     repro = ("import verde, numpy as np; s = verde.VectorSpline2D(poisson=%r, mindist=%r); "
@@ -421,7 +433,7 @@ def trend_jac_case(vd, rnd, N, kind):
     if rnd.random() < 0.3:
         e = e + rnd.uniform(-1, 1)      # non-dyadic: powers are rounded
     J = vd.Trend(degree=N).jacobian((e, nn))
-    term = "c03_trend_jac %s %s %s %s" % (cN(N), cvec(e), cvec(nn), cmat(J))
+    term = ("c03_trend_jac %s %s %s %s" % (cN(N), cvec(e), cvec(nn), cmat(J))) if _fin(J) else "c03_flag false"
     return Case({"fn": "Trend.jacobian", "degree": N, "east": e.tolist(), "north": nn.tolist()},
                 {"shape": list(J.shape), "first_row": J[0].tolist()}, term,
                 "import verde, numpy as np; print(verde.Trend(degree=%d).jacobian((np.array(%r), np.array(%r))))" % (N, e.tolist(), nn.tolist()),
@@ -443,7 +455,7 @@ def trend_predict_case(vd, rnd, N, fitted, kind):
         tr.region_ = (-3, 3, -3, 3)
     y = tr.predict((qe, qn))
     shape_ok = y.shape == qe.shape
-    term = "c03_trend_predict %s %s %s %s %s %s" % (cN(N), cvec(qe), cvec(qn), cvec(tr.coef_), cvec(y), cbool(shape_ok))
+    term = ("c03_trend_predict %s %s %s %s %s %s" % (cN(N), cvec(qe), cvec(qn), cvec(tr.coef_), cvec(y), cbool(shape_ok))) if _fin(tr.coef_, y) else "c03_flag false"
     return Case({"fn": "Trend.predict", "degree": N, "fitted": fitted, "coef": np.asarray(tr.coef_).tolist(),
                  "east": qe.tolist(), "north": qn.tolist()}, {"predict": np.asarray(y).ravel().tolist()}, term,
                 "import verde, numpy as np; t = verde.Trend(degree=%d); t.coef_ = np.array(%r); print(t.predict((np.array(%r), np.array(%r))))"
@@ -483,7 +495,7 @@ def translation_case(vd, rnd, vector, kind):
 def scipy_case(vd, rnd, cls_name, rescale, kind):
     from scipy.interpolate import CloughTocher2DInterpolator, LinearNDInterpolator
     n = rnd.randint(6, 25)
-    sx, sy = rnd.choice([(1.0, 1.0), (1000.0, 1.0), (1.0, 1e-3), (50.0, 7.0)])
+    sx, sy = rnd.choice([(1000.0, 1.0), (1.0, 1e-3), (50.0, 1.0)]) if rescale or rnd.random() < 0.7 else (1.0, 1.0)
     e = np.array([rnd.uniform(-1, 1) * sx for _ in range(n)]); nn = np.array([rnd.uniform(-1, 1) * sy for _ in range(n)])
     data = np.array([rnd.uniform(-10, 10) for _ in range(n)])
     shape_kind = rnd.choice(["1d", "2d"])
@@ -542,6 +554,18 @@ def half_case(vd, region):
     return cases
 
 
+def _guard(fn, stream, *args, **kw):
+    """a generator whose implementation call raises yields a failing case (not a harness crash)"""
+    import traceback
+    try:
+        r = fn(*args, **kw)
+        return r if isinstance(r, list) else [r]
+    except Exception as exc:      # noqa: BLE001
+        return [Case({"stream": stream, "args": repr(args[2:])[:300], "exception": repr(exc)[:300]},
+                     {"traceback": traceback.format_exc()[-800:]}, "c03_flag false",
+                     "# the implementation raised while observing this stream", stream)]
+
+
 # ---------------------------------------------------------------------------
 def generate(tier, seed):
     import verde as vd
@@ -551,22 +575,25 @@ def generate(tier, seed):
     cases = cert_cases(certs, tier)
     npred = 12 if quick else 120
     for i in range(npred):
-        cases.append(predict_spline_case(vd, rnd, fitted=bool(i % 2), kind="predict-spline"))
-        cases.append(predict_vector_case(vd, rnd, fitted=bool(i % 2), kind="predict-vector"))
+        cases += _guard(predict_spline_case, "predict-spline", vd, rnd, fitted=bool(i % 2), kind="predict-spline")
+        cases += _guard(predict_vector_case, "predict-vector", vd, rnd, fitted=bool(i % 2), kind="predict-vector")
     for N in range(0, 9 if quick else 13):
-        cases.append(combos_case(N))
+        cases += _guard(combos_case, "trend-combinations", N)
     for rep in range(1 if quick else 8):
         for N in range(0, 7 if quick else 9):
-            cases.append(trend_jac_case(vd, rnd, N, "trend-jacobian"))
-            cases.append(trend_predict_case(vd, rnd, N, fitted=bool((N + rep) % 2), kind="trend-predict"))
+            cases += _guard(trend_jac_case, "trend-jacobian", vd, rnd, N, "trend-jacobian")
+            cases += _guard(trend_predict_case, "trend-predict", vd, rnd, N, fitted=bool((N + rep) % 2), kind="trend-predict")
     for i in range(8 if quick else 80):
-        cases.append(translation_case(vd, rnd, vector=bool(i % 2), kind="translation-vector" if i % 2 else "translation-spline"))
+        k = "translation-vector" if i % 2 else "translation-spline"
+        cases += _guard(translation_case, k, vd, rnd, vector=bool(i % 2), kind=k)
     for i in range(8 if quick else 80):
-        cases.append(scipy_case(vd, rnd, "Linear" if i % 2 else "Cubic", bool((i // 2) % 2), "scipy-linear" if i % 2 else "scipy-cubic"))
+        k = "scipy-linear" if i % 2 else "scipy-cubic"
+        cases += _guard(scipy_case, k, vd, rnd, "Linear" if i % 2 else "Cubic", bool((i // 2) % 2), k)
     for i in range(6 if quick else 60):
-        cases.append(finite_case(vd, rnd, vector=bool(i % 2), kind="finite-vector" if i % 2 else "finite-spline"))
+        k = "finite-vector" if i % 2 else "finite-spline"
+        cases += _guard(finite_case, k, vd, rnd, vector=bool(i % 2), kind=k)
     for region in [(0.0, 5000.0, -5000.0, 0.0), (-10.0, 6.0, 2.0, 3.0), (100.0, 103.5, -8.0, 56.0)]:
-        cases += half_case(vd, region)
+        cases += _guard(half_case, "checkerboard-default-wavelength", vd, region)
     return cases
 
 
